@@ -168,6 +168,8 @@ class Interp:
             if fv is not None and fv.kind == "lib":
                 return V("call", fv.a, args, kw, node=e)
             return V("call", norm(f), args, kw, node=e)
+        if isinstance(e, ast.Dict) and e.keys and all(isinstance(k, ast.Constant) for k in e.keys) and all(isinstance(v, ast.Constant) for v in e.values):
+            return V("const", {k.value: v.value for k, v in zip(e.keys, e.values)}, node=e)      # a literal table (e.g. for str.maketrans)
         if isinstance(e, ast.Dict) and any(k is None for k in e.keys):
             # {'tag': 1, **data}: the data merged with other entries -- a transformation of the data like any call
             unpacked = [self._expr(v, env, imports, fn, depth) for k, v in zip(e.keys, e.values) if k is None]
